@@ -1,9 +1,528 @@
-/- Helper lemmas for C07. -/
+/- Helper lemmas for C07: from the builder invariant to a sound runner, and what a sound
+   runner does with values of every dynamic type. -/
 import EinoV.Model.C20Builder
 import EinoV.Model.C07
 import EinoV.Proofs.C20
+import EinoV.Proofs.C20Infer
 
 namespace EinoV.C07
 open EinoV.Build
+
+/-! ### assignability table vs. Go assignability of dynamic values -/
+
+/-- method-set inclusion is transitive: a type implementing the interface `u`, where `u`
+    implements `v`, implements `v` (for `u = any`: if the empty interface implemented `v`,
+    everything would) -/
+def ImplTrans (im : Impl) : Prop :=
+  ∀ (t u v : Ty), u.isIface = true → implements im t u = true → implements im u v = true →
+    implements im t v = true
+
+theorem dynOk_any (im : Impl) (d : Dyn) : dynOk im d .any = true := rfl
+
+theorem dynOk_iface (im : Impl) (d : Dyn) (A : Ty) (h : A.isIface = true) :
+    dynOk im d A = implements im (.conc d) A := by
+  cases A with
+  | conc c => simp [Ty.isIface] at h
+  | iface i => rfl
+  | any => rfl
+
+/-- `must`: every value the upstream type can hold is assignable downstream -/
+theorem must_sound (im : Impl) (ht : ImplTrans im) (A B : Ty)
+    (h : checkAssignable im (some A) (some B) = .must) (d : Dyn) (hd : dynOk im d A = true) :
+    dynOk im d B = true := by
+  simp only [checkAssignable] at h
+  by_cases hab : B = A
+  · subst hab; exact hd
+  · rw [if_neg hab] at h
+    by_cases h2 : (B.isIface && implements im A B) = true
+    · simp only [Bool.and_eq_true] at h2
+      obtain ⟨hbi, himp⟩ := h2
+      rw [dynOk_iface im d B hbi]
+      cases hA : A.isIface
+      · -- A concrete: the value has exactly type A
+        cases A with
+        | conc c =>
+          simp only [dynOk, beq_iff_eq] at hd
+          subst hd; exact himp
+        | iface i => simp [Ty.isIface] at hA
+        | any => simp [Ty.isIface] at hA
+      · rw [dynOk_iface im d A hA] at hd
+        exact ht (.conc d) A B hA hd himp
+    · rw [if_neg h2] at h
+      split at h
+      · split at h <;> simp at h
+      · simp at h
+
+/-- `may` is only ever answered when the upstream type is an interface -/
+theorem may_upstream_iface (im : Impl) (A B : Ty) (h : checkAssignable im (some A) (some B) = .may) :
+    A.isIface = true := by
+  simp only [checkAssignable] at h
+  split at h
+  · simp at h
+  · split at h
+    · simp at h
+    · split at h
+      · assumption
+      · simp at h
+
+/-- between two concrete types the answer is `must` for equal types, `mustNot` otherwise –
+    never `may`; and `mustNot` really means no value fits -/
+theorem concrete_table (im : Impl) (a b : Nat) :
+    checkAssignable im (some (.conc a)) (some (.conc b)) = (if a = b then .must else .mustNot) ∧
+    (∀ d, dynOk im d (.conc a) = true → (dynOk im d (.conc b) = true ↔ a = b)) := by
+  constructor
+  · simp only [checkAssignable, Ty.isIface, Bool.false_and, Bool.false_eq_true, ↓reduceIte, Ty.conc.injEq]
+    by_cases h : a = b
+    · simp [h]
+    · have : ¬ b = a := fun e => h e.symm
+      simp [h, this]
+  · intro d hd
+    simp only [dynOk, beq_iff_eq] at hd ⊢
+    subst hd
+    exact ⟨fun e => e.symm, fun e => e.symm⟩
+
+
+/-! ### sound runners -/
+
+/-- the data connection `a → b` of the runner was validated: assignable for sure, or possibly
+    assignable with the run-time converter installed -/
+def SoundConn (im : Impl) (r : Runner) (a b : Key) : Prop :=
+  match checkAssignable im (r.outOf a) (r.inOf b) with
+  | .mustNot => False
+  | .may => (a, b) ∈ r.mayEdges
+  | .must => True
+
+def SoundBrR (im : Impl) (r : Runner) (br : BranchRec) (flag : Bool) : Prop :=
+  match checkAssignable im (r.outOf br.src) (some br.inTy) with
+  | .mustNot => False
+  | .may => flag = true
+  | .must => True
+
+structure SoundRunner (im : Impl) (r : Runner) : Prop where
+  nodeOK : ∀ n ∈ r.nodes, NodeOK n
+  edges : ∀ p ∈ r.dataEdges, SoundConn im r p.1 p.2
+  brLen : r.branches.length = r.preBranch.length
+  br : ∀ p ∈ r.branches.zip (r.preBranch.map (·.2)),
+    SoundBrR im r p.1 p.2 ∧ (p.1.noData = false → ∀ e ∈ p.1.ends, SoundConn im r p.1.src e)
+
+theorem slices_empty {tv : List (Key × List PEdge)} (h : tv.any (fun p => !p.2.isEmpty) = false) (s : Key) :
+    getSlice tv s = [] := by
+  induction tv with
+  | nil => rfl
+  | cons p tv ih =>
+    obtain ⟨k, l⟩ := p
+    simp only [List.any_cons, Bool.or_eq_false_iff] at h
+    simp only [getSlice]
+    split
+    · have := h.1; simpa using this
+    · exact ih h.2
+
+/-- a builder that satisfies the invariant and passes Compile's pre-checks yields a sound runner -/
+theorem mkRunner_sound (im : Impl) (f : Facts) (b : Builder) (o : COpts) (h : Inv im b)
+    (hp : compilePre f b o = none) : SoundRunner im (mkRunner f b o) := by
+  have hempty : ∀ s, getSlice b.toValidate s = [] := by
+    unfold compilePre at hp
+    repeat' split at hp
+    all_goals first | (simp at hp; done) | skip
+    rename_i htv _ _
+    exact slices_empty (by simpa using htv)
+  have hconn : ∀ s e, Conn b s e → SoundE im b s e := by
+    intro s e hc
+    rcases h.c.conn s e (Or.inl hc) with ⟨x, hx, _⟩ | hs
+    · rw [hempty s] at hx; simp at hx
+    · exact hs
+  refine ⟨h.c.wf, ?_, h.brLen, ?_⟩
+  · intro p hp'
+    exact hconn p.1 p.2 (Or.inl hp')
+  · intro p hp'
+    refine ⟨h.br p hp', fun hnd e he => ?_⟩
+    have hmem : p.1 ∈ b.branches := (List.of_mem_zip hp').1
+    exact hconn p.1.src e (Or.inr ⟨p.1, hmem, rfl, he, hnd⟩)
+
+/-- every runner handed out while replaying Graph-API calls from a state satisfying the
+    invariant is sound -/
+theorem run_runners_sound (f : Facts) (hg : f.branchGuarded = true) (hpr : f.branchPropagates = true)
+    (im : Impl) (ord : Ord) (hv : ord.Valid) :
+    ∀ (ops : List Op) (b : Builder), (∀ op ∈ ops, op.isGraphApi = true) → Inv im b →
+      ∀ r ∈ (run f im ord b ops).2.2, SoundRunner im r := by
+  intro ops
+  induction ops with
+  | nil => intro b _ _ r hr; simp [run] at hr
+  | cons op ops ih =>
+    intro b hops hi r hr
+    have hop : op.isGraphApi = true := hops op List.mem_cons_self
+    have hrest : ∀ x ∈ ops, x.isGraphApi = true := fun x hx => hops x (List.mem_cons_of_mem _ hx)
+    simp only [run] at hr
+    have hstep : Inv im (step f im ord b op).1 ∧
+        ∀ r0, (step f im ord b op).2.2 = some r0 → SoundRunner im r0 := by
+      cases op with
+      | node n => exact ⟨addNode_inv f im b n hi, fun r0 h0 => by simp [step] at h0⟩
+      | edge s e nc nd m =>
+        simp only [Op.isGraphApi, Bool.and_eq_true, Bool.not_eq_true', Option.isNone_iff_eq_none] at hop
+        obtain ⟨⟨rfl, rfl⟩, rfl⟩ := hop
+        exact ⟨addEdge_inv f im ord hv b s e hi, fun r0 h0 => by simp [step] at h0⟩
+      | branch s t ends sk =>
+        simp only [Op.isGraphApi, Bool.not_eq_true'] at hop
+        subst hop
+        exact ⟨addBranch_inv f hg hpr im ord hv b s t ends hi, fun r0 h0 => by simp [step] at h0⟩
+      | compile o =>
+        refine ⟨compile_inv f im ord b o hi, fun r0 h0 => ?_⟩
+        simp only [step] at h0
+        unfold compile at h0
+        split at h0
+        · simp at h0
+        · split at h0
+          · simp at h0
+          · rename_i hpre
+            split at h0
+            · simp at h0
+            · simp only [Option.some.injEq] at h0
+              subst h0
+              exact mkRunner_sound im f b o hi hpre
+    rcases List.mem_append.mp hr with hr | hr
+    · rcases h0 : (step f im ord b op).2.2 with _ | r0
+      · simp [h0] at hr
+      · simp only [h0, List.mem_singleton] at hr
+        rw [hr]
+        exact hstep.2 r0 h0
+    · exact ih _ hrest hstep.1 r hr
+
+theorem Inv.new (im : Impl) (cmp : Cmp) (inT outT : Ty) (st : Option Nat) : Inv im (Builder.new cmp inT outT st) := by
+  refine ⟨⟨?_, ?_, ?_, ?_⟩, rfl, ?_⟩
+  · intro n hn; simp [Builder.new] at hn
+  · intro s pe hpe; simp [Builder.new, getSlice] at hpe
+  · intro s pe hpe; simp [Builder.new, getSlice] at hpe
+  · intro s e hc
+    rcases hc with hc | hc
+    · rcases hc with hc | ⟨br, hbr, _⟩
+      · simp [Builder.new] at hc
+      · simp [Builder.new] at hbr
+    · simp at hc
+  · intro p hp; simp [Builder.new] at hp
+
+
+/-! ### runs of a sound runner -/
+
+theorem worst_pass {evs : List Ev} (h : worst evs = .pass) : ∀ e ∈ evs, e = .pass := by
+  induction evs with
+  | nil => intro e he; simp at he
+  | cons x xs ih =>
+    cases x with
+    | pass =>
+      simp only [worst] at h
+      intro e he
+      rcases List.mem_cons.mp he with r | r
+      · exact r
+      · exact ih h e r
+    | typeErr => simp only [worst] at h; split at h <;> simp at h
+    | panic => simp [worst] at h
+    | badPick =>
+      simp only [worst] at h
+      split at h
+      · simp at h
+      · rename_i hne; exact absurd h hne
+
+theorem worst_panic {evs : List Ev} (h : worst evs = .panic) : Ev.panic ∈ evs := by
+  induction evs with
+  | nil => simp [worst] at h
+  | cons x xs ih =>
+    cases x with
+    | pass => simp only [worst] at h; exact List.mem_cons_of_mem _ (ih h)
+    | panic => exact List.mem_cons_self
+    | typeErr =>
+      simp only [worst] at h
+      split at h
+      · rename_i hw; exact List.mem_cons_of_mem _ (ih hw)
+      · simp at h
+    | badPick =>
+      simp only [worst] at h
+      split at h
+      · simp at h
+      · exact List.mem_cons_of_mem _ (ih h)
+
+theorem mem_zipIdx {α : Type} {l : List α} {n i : Nat} {x : α} (h : (i, x) ∈ zipIdx l n) : x ∈ l := by
+  induction l generalizing n with
+  | nil => simp [zipIdx] at h
+  | cons y ys ih =>
+    simp only [zipIdx, List.mem_cons, Prod.mk.injEq] at h
+    rcases h with ⟨_, rfl⟩ | h
+    · exact List.mem_cons_self
+    · exact List.mem_cons_of_mem _ (ih h)
+
+theorem mem_branchTable {r : Runner} {p : Nat × BranchRec × Bool} (h : p ∈ r.branchTable) :
+    (p.2.1, p.2.2) ∈ r.branches.zip (r.preBranch.map (·.2)) := by
+  unfold Runner.branchTable at h
+  simp only [List.mem_map] at h
+  obtain ⟨q, hq, rfl⟩ := h
+  obtain ⟨i, x⟩ := q
+  exact mem_zipIdx hq
+
+/-- the value (dynamic type `d`) fits the declared type, if one is declared -/
+def Inhab (im : Impl) (d : Dyn) (T : Option Ty) : Prop := ∀ t, T = some t → dynOk im d t = true
+
+def Good (im : Impl) (r : Runner) (dl : Delivery) : Prop := Inhab im dl.d (r.inOf dl.dst)
+
+/-- Go's type checker on user code: a node body returns a value of its declared output type -/
+def CodeOk (im : Impl) (r : Runner) (c : Code) : Prop :=
+  ∀ k d, r.isPassthrough k = false → k ≠ START → k ≠ END → Inhab im (c.body k d) (r.outOf k)
+
+theorem conn_good {im : Impl} (ht : ImplTrans im) {r : Runner} {a b : Key} {d : Dyn}
+    (hs : SoundConn im r a b) (hd : Inhab im d (r.outOf a)) :
+    convert im r a b d ≠ .panic ∧ (convert im r a b d = .pass → Inhab im d (r.inOf b)) := by
+  unfold SoundConn at hs
+  rcases ho : r.outOf a with _ | A
+  · simp [ho, checkAssignable] at hs
+  · rcases hi : r.inOf b with _ | B
+    · simp [hi, checkAssignable_none_right] at hs
+    · rw [ho, hi] at hs
+      have hdA : dynOk im d A = true := hd A ho
+      unfold convert
+      simp only [hi]
+      constructor
+      · split <;> simp
+      · intro hp t ht'
+        simp only [Option.some.injEq] at ht'
+        subst ht'
+        rcases hc : checkAssignable im (some A) (some B) with _ | _ | _
+        · simp [hc] at hs
+        · exact must_sound im ht A B hc d hdA
+        · simp only [hc] at hs
+          have hcont : r.mayEdges.contains (a, b) = true := by simpa using hs
+          simp only [hcont, Bool.true_and] at hp
+          by_cases hk : dynOk im d B = true
+          · exact hk
+          · simp [hk] at hp
+
+theorem pt_out_eq_in {im : Impl} {r : Runner} (hr : SoundRunner im r) (k : Key)
+    (h : (r.isPassthrough k || k = START || k = END) = true) : r.outOf k = r.inOf k := by
+  unfold Runner.outOf Runner.inOf
+  by_cases h1 : k = START
+  · simp [h1]
+  · by_cases h2 : k = END
+    · simp [h1, h2]
+    · simp only [h1, h2, ↓reduceIte]
+      simp only [h1, h2, decide_false, Bool.or_false] at h
+      unfold Runner.isPassthrough Runner.node at h
+      rcases hf : findNode r.nodes k with _ | n
+      · rfl
+      · simp only [hf] at h
+        exact ((hr.nodeOK n (findNode_mem hf).1).1 h).symm
+
+theorem emit_ok {im : Impl} (ht : ImplTrans im) {r : Runner} (hr : SoundRunner im r) (c : Code) (k : Key) (d : Dyn)
+    (hd : Inhab im d (r.outOf k)) :
+    Ev.panic ∉ (emit im r c k d).1 ∧
+    ((∀ e ∈ (emit im r c k d).1, e = .pass) → ∀ dl ∈ (emit im r c k d).2, Good im r dl) := by
+  -- every delivery produced is a sound connection out of k carrying d
+  have hdel : ∀ dl ∈ (emit im r c k d).2, dl.src = k ∧ dl.d = d ∧
+      ((dl.src, dl.dst) ∈ r.dataEdges ∨
+       ∃ p ∈ r.branchTable, p.2.1.src = k ∧ p.2.1.noData = false ∧ dl.dst = c.pick k p.1 d) := by
+    intro dl hdl
+    simp only [emit, List.mem_append, List.mem_map, List.mem_filter, List.mem_filterMap] at hdl
+    rcases hdl with ⟨e, ⟨he, hk⟩, rfl⟩ | ⟨p, ⟨hp, hk⟩, hsome⟩
+    · simp only [decide_eq_true_eq] at hk
+      refine ⟨rfl, rfl, Or.inl ?_⟩
+      simp only; rw [← hk]; exact he
+    · simp only [decide_eq_true_eq] at hk
+      split at hsome
+      · simp at hsome
+      · rename_i hnd
+        simp only [Option.some.injEq] at hsome
+        subst hsome
+        exact ⟨rfl, rfl, Or.inr ⟨p, hp, hk, by simpa using hnd, rfl⟩⟩
+  constructor
+  · intro hmem
+    simp only [emit, List.mem_append, List.mem_map] at hmem
+    rcases hmem with ⟨p, hp, hev⟩ | ⟨dl, _, hev⟩
+    · -- a branch condition: sound ⇒ converter or guaranteed fit, never the assertion
+      simp only [List.mem_filter, decide_eq_true_eq] at hp
+      have hsb := (hr.br _ (mem_branchTable hp.1)).1
+      unfold SoundBrR at hsb
+      rw [hp.2] at hsb
+      rcases ho : r.outOf k with _ | A
+      · simp [ho, checkAssignable] at hsb
+      · rw [ho] at hsb
+        have hdA := hd A ho
+        unfold arriveBranch at hev
+        rcases hc : checkAssignable im (some A) (some p.2.1.inTy) with _ | _ | _
+        · simp [hc] at hsb
+        · have := must_sound im ht A _ hc d hdA
+          simp [this] at hev
+          split at hev <;> simp at hev
+        · simp only [hc] at hsb
+          simp only [hsb, Bool.true_and] at hev
+          by_cases hk : dynOk im d p.2.1.inTy = true
+          · simp [hk] at hev; split at hev <;> simp at hev
+          · simp [hk] at hev
+    · exact (by
+        unfold convert at hev
+        split at hev
+        · simp at hev
+        · split at hev <;> simp at hev)
+  · intro hall dl hdl
+    obtain ⟨hsrc, hdd, hkind⟩ := hdel dl hdl
+    have hconv : convert im r dl.src dl.dst dl.d = .pass := by
+      apply hall
+      simp only [emit, List.mem_append, List.mem_map]
+      exact Or.inr ⟨dl, by simpa [emit] using hdl, rfl⟩
+    have hsound : SoundConn im r dl.src dl.dst := by
+      rcases hkind with he | ⟨p, hp, hk, hnd, hpick⟩
+      · exact hr.edges _ he
+      · have hz := hr.br _ (mem_branchTable hp)
+        -- the branch event passed, so the picked node is one of the ends
+        have hev : (match arriveBranch im p.2.1.inTy p.2.2 d with
+            | .pass => if p.2.1.ends.contains (c.pick k p.1 d) then Ev.pass else Ev.badPick
+            | e => e) = Ev.pass := by
+          apply hall
+          simp only [emit, List.mem_append, List.mem_map, List.mem_filter, decide_eq_true_eq]
+          exact Or.inl ⟨p, ⟨hp, hk⟩, rfl⟩
+        have hin : c.pick k p.1 d ∈ p.2.1.ends := by
+          split at hev
+          · split at hev
+            · rename_i hc; simpa using hc
+            · simp at hev
+          · rename_i hne; exact absurd hev (by intro e; exact hne (by rw [← e]))
+        rw [hsrc, hpick]
+        have h5 := hz.2 hnd _ hin
+        rw [hk] at h5
+        exact h5
+    have hd' : Inhab im dl.d (r.outOf dl.src) := by rw [hsrc, hdd]; exact hd
+    exact (conn_good ht hsound hd').2 hconv
+
+
+theorem task_ok {im : Impl} (ht : ImplTrans im) {r : Runner} (hr : SoundRunner im r) {c : Code}
+    (hc : CodeOk im r c) (dl : Delivery) (hg : Good im r dl) :
+    Ev.panic ∉ (task im r c dl).1 ∧
+    ((∀ e ∈ (task im r c dl).1, e = .pass) → ∀ x ∈ (task im r c dl).2, Good im r x) := by
+  have hassert : assertIn im r dl.dst dl.d = .pass := by
+    unfold assertIn
+    rcases hi : r.inOf dl.dst with _ | t
+    · rfl
+    · simp only
+      split
+      · rfl
+      · have := hg t hi
+        simp [this]
+  unfold task
+  simp only [hassert]
+  apply emit_ok ht hr c
+  by_cases hpt : (r.isPassthrough dl.dst || dl.dst = START || dl.dst = END) = true
+  · simp only [hpt, ↓reduceIte]
+    rw [pt_out_eq_in hr dl.dst hpt]; exact hg
+  · simp only [hpt]
+    simp only [Bool.or_eq_true, decide_eq_true_eq, not_or] at hpt
+    exact hc dl.dst dl.d (by simpa using hpt.1.1) hpt.1.2 hpt.2
+
+theorem level_ok {im : Impl} (ht : ImplTrans im) {r : Runner} (hr : SoundRunner im r) {c : Code}
+    (hc : CodeOk im r c) : ∀ (ds : List Delivery), (∀ dl ∈ ds, Good im r dl) →
+      Ev.panic ∉ (level im r c ds).1 ∧
+      ((∀ e ∈ (level im r c ds).1, e = .pass) → ∀ x ∈ (level im r c ds).2, Good im r x) := by
+  intro ds
+  induction ds with
+  | nil => intro _; simp [level]
+  | cons dl rest ih =>
+    intro hg
+    have h1 := task_ok ht hr hc dl (hg dl List.mem_cons_self)
+    have h2 := ih (fun x hx => hg x (List.mem_cons_of_mem _ hx))
+    simp only [level]
+    constructor
+    · intro hm
+      rcases List.mem_append.mp hm with e | e
+      · exact h1.1 e
+      · exact h2.1 e
+    · intro hall x hx
+      rcases List.mem_append.mp hx with e | e
+      · exact h1.2 (fun ev hev => hall ev (List.mem_append_left _ hev)) x e
+      · exact h2.2 (fun ev hev => hall ev (List.mem_append_right _ hev)) x e
+
+theorem settle_ok {im : Impl} {r : Runner} (ds : List Delivery) (hg : ∀ dl ∈ ds, Good im r dl) :
+    settle im r ds ≠ some .panic := by
+  unfold settle
+  split
+  · simp
+  · split
+    · rename_i dl hf
+      have hmem : dl ∈ ds := List.mem_of_find?_eq_some hf
+      have hend : dl.dst = END := by simpa using List.find?_some hf
+      have hg' := hg dl hmem
+      have : assertIn im r END dl.d = .pass := by
+        unfold assertIn
+        rcases hi : r.inOf END with _ | t
+        · rfl
+        · simp only
+          split
+          · rfl
+          · have := hg' t (by rw [hend]; exact hi)
+            simp [this]
+      simp [this]
+    · split <;> simp
+
+theorem runLevels_no_panic {im : Impl} (ht : ImplTrans im) {r : Runner} (hr : SoundRunner im r) {c : Code}
+    (hc : CodeOk im r c) : ∀ (fuel : Nat) (ds : List Delivery), (∀ dl ∈ ds, Good im r dl) →
+      runLevels im r c fuel ds ≠ .panic := by
+  intro fuel
+  induction fuel with
+  | zero => intro ds _; simp [runLevels]
+  | succ n ih =>
+    intro ds hg
+    have hl := level_ok ht hr hc ds hg
+    simp only [runLevels]
+    rcases hw : worst (level im r c ds).1 with _ | _ | _ | _
+    · -- pass
+      simp only
+      have hnext := hl.2 (worst_pass hw)
+      rcases hs : settle im r (level im r c ds).2 with _ | res
+      · simp only; exact ih _ hnext
+      · simp only
+        intro e; subst e
+        exact settle_ok _ hnext hs
+    · simp
+    · exact absurd (worst_panic hw) hl.1
+    · simp
+
+/-- **no run of a sound runner reaches a failing type assertion** -/
+theorem runGraph_no_panic {im : Impl} (ht : ImplTrans im) {r : Runner} (hr : SoundRunner im r) {c : Code}
+    (hc : CodeOk im r c) (fuel : Nat) (d0 : Dyn) (hd : dynOk im d0 r.inT = true) :
+    runGraph im r c fuel d0 ≠ .panic := by
+  have hd0 : Inhab im d0 (r.outOf START) := by
+    intro t htt
+    simp only [Runner.outOf, ↓reduceIte, Option.some.injEq] at htt
+    subst htt; exact hd
+  have he := emit_ok ht hr c START d0 hd0
+  unfold runGraph
+  simp only
+  rcases hw : worst (emit im r c START d0).1 with _ | _ | _ | _
+  · simp only
+    have hnext := he.2 (worst_pass hw)
+    rcases hs : settle im r (emit im r c START d0).2 with _ | res
+    · simp only; exact runLevels_no_panic ht hr hc fuel _ hnext
+    · simp only
+      intro e; subst e
+      exact settle_ok _ hnext hs
+  · simp
+  · exact absurd (worst_panic hw) he.1
+  · simp
+
+/-- on a validated connection a converter reports an ordinary error exactly when the
+    upstream type is an interface and the value's dynamic type is not assignable downstream -/
+theorem convert_typeErr_iff {im : Impl} (ht : ImplTrans im) {r : Runner} {a b : Key} {d : Dyn} {A B : Ty}
+    (hs : SoundConn im r a b) (ho : r.outOf a = some A) (hi : r.inOf b = some B)
+    (hd : dynOk im d A = true) :
+    convert im r a b d = .typeErr ↔ (A.isIface = true ∧ dynOk im d B = false) := by
+  unfold SoundConn at hs
+  rw [ho, hi] at hs
+  unfold convert
+  simp only [hi]
+  rcases hc : checkAssignable im (some A) (some B) with _ | _ | _
+  · simp [hc] at hs
+  · -- must: the value always fits, no error whatever is installed
+    have := must_sound im ht A B hc d hd
+    simp [this]
+  · simp only [hc] at hs
+    have hcont : r.mayEdges.contains (a, b) = true := by simpa using hs
+    have hA := may_upstream_iface im A B hc
+    simp only [hcont, Bool.true_and, hA, true_and]
+    by_cases hk : dynOk im d B = true
+    · simp [hk]
+    · simp [hk]
 
 end EinoV.C07
